@@ -65,7 +65,9 @@ theorem C10_lc_differences (t : Ty) (size : Nat) (h : Spec.lcDust t size ≠ Spe
   cases t with
   | prim p => simp [Spec.lcDust, Spec.lcStd, Spec.startsWithDheader] at h
   | str => simp [Spec.lcDust, Spec.lcStd, Spec.startsWithDheader] at h
-  | enum hd ls => simp [Spec.lcDust, Spec.lcStd, Spec.startsWithDheader] at h
+  | enum hd ls x => simp [Spec.lcDust, Spec.lcStd, Spec.startsWithDheader] at h
+  | wstr => simp [Spec.lcDust, Spec.lcStd, Spec.startsWithDheader] at h
+  | union _ _ => simp [Spec.lcDust, Spec.lcStd, Spec.startsWithDheader] at h
   | seq el =>
     cases el with
     | prim p => exact Or.inl ⟨p, rfl⟩
@@ -101,10 +103,44 @@ theorem C10_lc_differences (t : Ty) (size : Nat) (h : Spec.lcDust t size ≠ Spe
       by_cases h8 : size = 8; · exact Or.inr (Or.inr (Or.inr h8))
       simp [h1, h2, h4, h8] at h
 
+/-! ### enumerations with a declared extensibility, wide strings (follow-up 2) -/
+/-- **length code of an enumeration member**: an enumeration has no DHEADER whatever extensibility its type declares
+    (`@appendable` is the IDL default for enums), so in a mutable structure its EMHEADER1 carries the length code of
+    its size (LC = 2 for the usual 32-bit holder), never 5 - in the model (`Ty.lc5`, transcription of
+    `EMheader1::write_header`: the kind test STRUCTURE | UNION comes before the extensibility test), in the dust dialect
+    and in the book dialect of the specification. -/
+theorem C10_enum_length_code (h : Prim) (ls : List Int) (x : Ext) (size : Nat) :
+    Ty.lc5 (.enum h ls x) = false ∧
+    Spec.lcDust (.enum h ls x) size = Spec.lcStd .v2 (.enum h ls x) size ∧
+    Spec.lcStd .v2 (.enum h ls x) 4 = 2 ∧ Spec.lcStd .v2 (.enum h ls x) 2 = 1 ∧ Spec.lcStd .v2 (.enum h ls x) 1 = 0 := by
+  simp [Ty.lc5, Spec.lcDust, Spec.lcStd, Spec.startsWithDheader]
+
+/-- `#[mutable] struct { a: E, b: u8 }` with `@appendable enum E` (32-bit), value (1, 7), XCDR2 little-endian: the
+    EMHEADER1 of `a` is 0x20000000 (LC = 2); the same bytes for a final enumeration. Replayed by the corpus of C10
+    (`cmp 2 le SM{0:Ei32a[0,1],1:u8} {1,7}`). -/
+def tyEnumA : Ty := .struct .mutable (.cons 0 false false (.enum .i32 [0, 1] .appendable) (.cons 1 false false (.prim .u8) .nil))
+def tyEnumF : Ty := .struct .mutable (.cons 0 false false (.enum .i32 [0, 1] .final) (.cons 1 false false (.prim .u8) .nil))
+theorem C10_appendable_enum_member_bytes :
+    serTop Cfg.fixed .v2 .le tyEnumA (.struct [.num 1, .num 7]) =
+      [0, 0x0b, 0, 3, 0x0d, 0, 0, 0, 0, 0, 0, 0x20, 1, 0, 0, 0, 1, 0, 0, 0, 7, 0, 0, 0] ∧
+    serTop Cfg.fixed .v2 .le tyEnumF (.struct [.num 1, .num 7]) = serTop Cfg.fixed .v2 .le tyEnumA (.struct [.num 1, .num 7]) ∧
+    Spec.serTop .v2 .le tyEnumA (.struct [.num 1, .num 7]) = serTop Cfg.fixed .v2 .le tyEnumA (.struct [.num 1, .num 7]) := by
+  decide +kernel
+
+/-- a wide string with a character outside the BMP (U+1F600 = D83D DE00): the length prefix counts UTF-16 code units
+    plus the terminating zero unit (5), not characters (4). Inside the hypotheses of `C10_model_eq_spec`. -/
+def tyW : Ty := .struct .final (.cons 0 false false .wstr (.cons 1 false false (.prim .u8) .nil))
+def valW : Val := .struct [.list [.num 97, .num 0xD83D, .num 0xDE00, .num 98], .num 7]
+theorem C10_wstring_bytes :
+    wfVal Cfg.fixed .v1 tyW valW = true ∧
+    serTop Cfg.fixed .v1 .le tyW valW =
+      [0, 1, 0, 1, 5, 0, 0, 0, 0x61, 0, 0x3d, 0xd8, 0, 0xde, 0x62, 0, 0, 0, 7, 0] := by
+  decide +kernel
+
 /-! ### non-vacuity and witnesses -/
 def tyC10 : Ty := .struct .appendable (.cons 0 false false (.prim .u8) (.cons 1 true false (.prim .u64)
   (.cons 2 false false (.seq (.struct .final (.cons 0 false false .str (.cons 1 false false (.arr (.prim .i16) 2) .nil))))
-  (.cons 3 false false (.enum .i8 [-1, 3]) .nil))))
+  (.cons 3 false false (.enum .i8 [-1, 3] .final) .nil))))
 def valC10 : Val := .struct [.num 7, .num 0x1122334455667788,
   .list [.struct [.str [0x61, 0x62], .list [.num 1, .num 65535]]], .num 255]
 example : wfVal Cfg.fixed .v1 tyC10 valC10 = true ∧ noMutable tyC10 = true ∧ shortIds .v1 tyC10 = true ∧
